@@ -1964,7 +1964,11 @@ impl fmt::Display for Date {
     /// instead produces a string of the form `YYYY-JJJ` (year and day of
     /// year).
     fn fmt(&self, f: &mut fmt::Formatter<'_>) -> fmt::Result {
-        write!(f, "{:04}-", self.year())?;
+        if self.year() < 0 {
+            write!(f, "-{:04}-", self.year().unsigned_abs())?;
+        } else {
+            write!(f, "{:04}-", self.year())?;
+        }
         if f.alternate() {
             write!(f, "{:03}", self.ordinal())?;
         } else {
